@@ -45,5 +45,41 @@ def known(case, obs, failure):
 FAMILIES = [
     progs.program_family("programs", oracles.oracle_c02, 120, 2500, deep=dict(depth=7, width=5), **dict(fault=0.6, registry_rate=0.6, p_fault_ser=0.0, depth=4, p_finish_inside=0.06)),
 ]
+from lib import oplists
+from lib.framework import Family
+import json
+
+
+def gen_scripts(rng, tier):
+    n = 60 if tier == "quick" else 1200
+    return [oplists.gen_script(rng, late_add=(i % 3 == 0), n_ops=rng.randrange(6, 22)) for i in range(n)]
+
+
+def oracle_scripts(case, obs):
+    bad = oracles.note_failures(obs, ("logging_raised", "foreign_exception"))
+    if bad:
+        return bad
+    return oracles.placement(obs["raw"]["1"]) if "1" in obs["raw"] else None
+
+
+def known_scripts(case, obs, failure):
+    kinds = [o[0] for o in case["ops"]]
+    late = "add" in kinds and any(k in ("start", "log", "tb") for k in kinds[:kinds.index("add")])
+    failing = any(any(f) for f in obs.get("fails", {}).values()) if isinstance(obs, dict) else False
+    if late and failing and isinstance(failure, str) and "emission order" in failure:
+        return "F8-buffered-replay-report-order"
+    return None
+
+
+FAMILIES.append(Family("scripts", gen_scripts, oplists.run_case, oplists.model_expr, oplists.model_obs, oracle_scripts,
+                       lambda case, obs: json.dumps(case["ops"]) if isinstance(obs, dict) and sum(len(m) for _, m in obs.get("dests", [])) >= 3 else None,
+                       known=known_scripts, imports=["Model.Core", "Model.Prog"], project=oplists.project,
+                       describe=oplists.describe, shard=30, coq_shard=60))
+F8_CASE = {"classes": [], "registry": [],
+           "ops": [["start", 1, False, 10, [[19, {"i": 1}]]], ["enter", 1], ["log", 11, []], ["log", 12, []],
+                   ["add", [[1, ["never"], {"id": 90, "cls": 2, "text": 100, "sr": False}],
+                            [2, ["not_reports"], {"id": 91, "cls": 9, "text": 101, "sr": False}]]],
+                   ["exit", 1, None]]}
+FAMILIES[1].corpus = [F8_CASE]
 FAMILIES[0].corpus = [F6_CASE]
 FAMILIES[0].known = known
